@@ -194,4 +194,157 @@ theorem mk?_inv {r : Raw} {s : Screen} (h : mk? r = .ok s) : MkFacts r s := by
              mask_needs_obs := hmo, obs_eq := by rw [ho]; exact hobs, mask_eq := by rw [ho]; exact hmask,
              len_obs := by rw [hobs]; simp, core := by rw [hobs, hmask]; exact c }
 
+/-! ### screens produced by the constructor -/
+
+/-- `s` is the result of some call `Screen(...)` -/
+def Valid (s : Screen) : Prop := ∃ r, mk? r = .ok s
+
+/-- well-formedness of a screen, stated on the screen alone -/
+structure WF (s : Screen) : Prop where
+  len_td : s.tdoses.length = s.tnames.length
+  len_sn : s.snames.length = s.tnames.length
+  len_pn : s.pnames.length = s.tnames.length
+  row_tn : s.tnames.any (·.length != s.arity) = false
+  row_td : s.tdoses.any (·.length != s.arity) = false
+  len_obs : s.obs.length = s.tnames.length
+  len_mask : s.mask.length = s.tnames.length
+  uniform : plateUniform s.pnames s.mask = true
+  tz : isZeroIndexed (s.tmap.map (·.2.2)) = true
+  sz : isZeroIndexed (s.smap.map (·.2)) = true
+  tenc : ∃ tf, encodeTreatments s.ctrl (cellsOf s.arity s.tnames s.tdoses) (some s.tmap) = .ok (tf, s.tmap)
+          ∧ tf.length = s.tnames.length * s.arity ∧ s.tids = unflattenColumns tf s.tnames.length s.arity
+  senc : encode1d s.snames (some s.smap) = .ok (s.sids, s.smap)
+  len_sids : s.sids.length = s.tnames.length
+  penc : encode1d s.pnames none = .ok (s.pids, s.pmap)
+
+theorem encodeTreatments_ok {ctrl : Name} {xs : List (Name × Dose)} {ex : Option TMap} {tf : List Int} {tm : TMap}
+    (h : encodeTreatments ctrl xs ex = .ok (tf, tm)) :
+    encodeTreatments ctrl xs (some tm) = .ok (tf, tm) ∧ (∀ m, ex = some m → tm = m)
+      ∧ (ex = none → tm = freshTMap ctrl xs) := by
+  unfold encodeTreatments at h ⊢
+  cases ex with
+  | none =>
+    simp only at h ⊢
+    split at h
+    · cases h
+    · rename_i g
+      injection h with h
+      injection h with h1 h2
+      subst h2
+      simp only [g, h1, Bool.false_eq_true, ↓reduceIte, true_and]
+      exact ⟨fun m hm => (by cases hm), fun _ => trivial⟩
+  | some m0 =>
+    simp only at h ⊢
+    split at h
+    · cases h
+    · rename_i g
+      injection h with h
+      injection h with h1 h2
+      subst h2
+      simp only [g, h1, Bool.false_eq_true, ↓reduceIte, true_and]
+      exact ⟨fun m hm => (by cases hm; rfl), fun hm => (by cases hm)⟩
+
+theorem encode1d_ok {xs : List Name} {ex : Option SMap} {ids : List Int} {sm : SMap}
+    (h : encode1d xs ex = .ok (ids, sm)) :
+    encode1d xs (some sm) = .ok (ids, sm) ∧ (∀ m, ex = some m → sm = m) ∧ (ex = none → sm = freshSMap xs) := by
+  unfold encode1d at h ⊢
+  cases ex with
+  | none =>
+    simp only at h ⊢
+    split at h
+    · cases h
+    · rename_i g
+      injection h with h
+      injection h with h1 h2
+      subst h2
+      simp only [g, h1, Bool.false_eq_true, ↓reduceIte, true_and]
+      exact ⟨fun m hm => (by cases hm), fun _ => trivial⟩
+  | some m0 =>
+    simp only at h ⊢
+    split at h
+    · cases h
+    · rename_i g
+      injection h with h
+      injection h with h1 h2
+      subst h2
+      simp only [g, h1, Bool.false_eq_true, ↓reduceIte, true_and]
+      exact ⟨fun m hm => (by cases hm; rfl), fun hm => (by cases hm)⟩
+
+theorem wf_of_mk {r : Raw} {s : Screen} (h : mk? r = .ok s) : WF s := by
+  have f := mk?_inv h
+  have c := f.core
+  obtain ⟨tf, hte, hlen, htids⟩ := c.tenc
+  have te := encodeTreatments_ok hte
+  have se := encode1d_ok c.senc
+  refine { len_td := ?_, len_sn := ?_, len_pn := ?_, row_tn := ?_, row_td := ?_, len_obs := ?_, len_mask := ?_,
+           uniform := ?_, tz := ?_, sz := ?_, tenc := ?_, senc := ?_, len_sids := ?_, penc := ?_ }
+  · rw [c.tdoses_eq, c.tnames_eq]; exact f.len_td
+  · rw [c.snames_eq, c.tnames_eq]; exact f.len_sn
+  · rw [c.pnames_eq, c.tnames_eq]; exact f.len_pn
+  · rw [c.tnames_eq, c.arity_eq]; exact f.row_tn
+  · rw [c.tdoses_eq, c.arity_eq]; exact f.row_td
+  · rw [c.tnames_eq]; exact f.len_obs
+  · rw [c.tnames_eq]; exact c.len_mask
+  · rw [c.pnames_eq]; exact c.uniform
+  · cases hm : r.tmap with
+    | none => rw [te.2.2 hm]; exact isZeroIndexed_freshTMap _ _
+    | some m => rw [te.2.1 m hm]; exact c.tz m hm
+  · cases hm : r.smap with
+    | none => rw [se.2.2 hm]; exact isZeroIndexed_freshSMap _
+    | some m => rw [se.2.1 m hm]; exact c.sz m hm
+  · refine ⟨tf, ?_, ?_, ?_⟩
+    · rw [c.ctrl_eq, c.arity_eq, c.tnames_eq, c.tdoses_eq]; exact te.1
+    · rw [c.tnames_eq, c.arity_eq]; exact hlen
+    · rw [c.tnames_eq, c.arity_eq]; exact htids
+  · rw [c.snames_eq]; exact se.1
+  · rw [c.tnames_eq]; exact c.len_sids
+  · rw [c.pnames_eq]; exact c.penc
+
+theorem Valid.wf {s : Screen} (h : Valid s) : WF s := by
+  obtain ⟨r, hr⟩ := h
+  exact wf_of_mk hr
+
+/-- the call every lifecycle operation makes: the screen's own rows, observations and mappings, a new mask -/
+def rowsRaw (s : Screen) (mask : List Bool) : Raw :=
+  { ctrl := s.ctrl, arity := s.arity, tnames := s.tnames, tdoses := s.tdoses, snames := s.snames,
+    pnames := s.pnames, obs := some s.obs, mask := some mask, tmap := some s.tmap, smap := some s.smap }
+
+/-- rebuilding a well-formed screen from its own rows and mappings with a plate-uniform mask of the right
+    length returns the same screen with that mask: no id and no mapping entry is renumbered -/
+theorem mk?_rowsRaw {s : Screen} (h : WF s) (m : List Bool) (hm : m.length = s.tnames.length)
+    (hu : plateUniform s.pnames m = true) : mk? (rowsRaw s m) = .ok { s with mask := m } := by
+  obtain ⟨tf, hte, hlen, htids⟩ := h.tenc
+  rw [mk?_eq]
+  unfold mkSpec rowsRaw
+  simp only [h.len_td, h.len_sn, h.len_pn, h.row_tn, h.row_td, h.len_obs, bne_self_eq_false, Bool.or_self,
+    Bool.false_eq_true, ↓reduceIte, Option.isNone_some, Bool.false_and]
+  rw [mkCore_eq]
+  unfold mkCoreSpec tmapBad smapBad
+  simp only [hm, hu, h.tz, h.sz, hte, h.senc, h.penc, hlen, h.len_sids, bne_self_eq_false, Bool.not_true,
+    Bool.false_eq_true, ↓reduceIte, Except.bind, htids]
+
+/-- the failing branches of the same call -/
+theorem mk?_rowsRaw_badlen {s : Screen} (h : WF s) (m : List Bool) (hm : m.length ≠ s.tnames.length) :
+    mk? (rowsRaw s m) = .error .indexError := by
+  rw [mk?_eq]
+  unfold mkSpec rowsRaw
+  simp only [h.len_td, h.len_sn, h.len_pn, h.row_tn, h.row_td, h.len_obs, bne_self_eq_false, Bool.or_self,
+    Bool.false_eq_true, ↓reduceIte, Option.isNone_some, Bool.false_and]
+  rw [mkCore_eq]
+  unfold mkCoreSpec
+  simp [hm]
+
+theorem mk?_rowsRaw_mixed {s : Screen} (h : WF s) (m : List Bool) (hm : m.length = s.tnames.length)
+    (hu : plateUniform s.pnames m = false) : mk? (rowsRaw s m) = .error .valueError := by
+  rw [mk?_eq]
+  unfold mkSpec rowsRaw
+  simp only [h.len_td, h.len_sn, h.len_pn, h.row_tn, h.row_td, h.len_obs, bne_self_eq_false, Bool.or_self,
+    Bool.false_eq_true, ↓reduceIte, Option.isNone_some, Bool.false_and]
+  rw [mkCore_eq]
+  unfold mkCoreSpec
+  simp [hm, hu]
+
+theorem WF.valid {s : Screen} (h : WF s) : Valid s :=
+  ⟨rowsRaw s s.mask, by rw [mk?_rowsRaw h s.mask h.len_mask h.uniform]⟩
+
 end Batchie.Lifecycle
